@@ -35,7 +35,7 @@ pub const BCAST: u64 = 32; // a ty o     (send_to_children clones the message: o
 pub const REG: u64 = 33; // o c opk ty h  (registry operation begins)
 pub const SUBSCRIBE: u64 = 34; // a topic o
 pub const DELIVER: u64 = 35; // a topic v
-pub const PUBCOPY: u64 = 36; // topic o v   (the broker cloned a publication: one delivery o)
+pub const PUBCOPY: u64 = 36; // topic o v src b h  (broker b cloned publication src for the subscriber behind its handle h: delivery o)
 pub const RELEASE: u64 = 37; // a n         (harness releases n more stream items of actor a)
 pub const QUERY: u64 = 38; // c h what b   (stopped()/running() on handle h)
 pub const CRASH: u64 = 39; // a            (harness cancels the loop task of a)
@@ -44,6 +44,9 @@ pub const STREAM_CLOSE: u64 = 40; // a      (harness lets the stream of actor a 
 pub const BCAST_BEGIN: u64 = 41; // a ty
 pub const TIMER_SLEEP: u64 = 42; // a k d    (timer task k of a starts sleeping d)
 
+pub const BROKER: u64 = 44; // b what a h   (what: 0 publish begins, 1 holds, 2 target, 3 published, 4 subscribe, 5 unsubscribe)
+pub const TOPIC_OP: u64 = 45; // o c kind topic x   (kind: 0 publish (x = value), 1 subscribe (x = actor), 2 unsubscribe (x = actor))
+pub const TOPIC_RET: u64 = 46; // o ok
 pub const PROBE: u64 = 43; // a o  (the registry pings the instance it just spawned)
 
 // opk
